@@ -344,7 +344,8 @@ def run(ctx):
         ts = ts_fields[0]
         ub = _roles.ib_paths(prog, R["update"])
         ws = phonetic.field_writes(prog, R["update"], mods, body=ub)
-        ts_bbs = {bb for (fl, op, bb, w) in ws if fl[:1] == (ts,)}
+        # (`state.take()` only ever resets the remembered state to 'nothing loaded': it cannot mark an unloaded edit as seen)
+        ts_bbs = {bb for (fl, op, bb, w) in ws if fl[:1] == (ts,) and not (op.endswith("Option::<T>::take") or op.endswith("mem::take"))}
         ac_bbs = {bb for (fl, op, bb, w) in ws if fl[:2] == (R["sug_field"], R["user_autocorrect"]) and op == "assign"}
         if not ts_bbs:
             r4.violation("gate", "update-engine never advances self.%s: the file would be re-read on every call (or never, if the gate is gone)" % ts, common.fn_line(prog, R["update"]))
